@@ -86,6 +86,7 @@ class ModelServer:
                                 I.mk_enum('SnapshotUrgency', 'None')))
         vid = self.w.new_version_id()
         self.chain.append((parent, vid, payload))
+        self.w.version_owner[vid] = I.env.get('current_client')
         urg = self.urgency(I) if self.urgency else 0
         return Ok(Tuple(I.mk_enum('AddVersionResult', 'Ok', [vid]), Adt('SnapshotUrgency', urg, [])))
 
@@ -123,6 +124,7 @@ class World:
         self.nclock = 0
         self.clock_terms = []
         self.script = []           # replayable scenario steps (python structures with z3 terms as leaves)
+        self.version_owner = {}
         I.env['now'] = self.now
         I.env['json_decode'] = json_decode_lenient
         I.env['new_uuid'] = self.new_uuid
@@ -181,7 +183,8 @@ class World:
     def sync_future(self, db, server_cell, avoid_snapshots=False):
         return self.I.call('TaskDb::sync', [mkref(db), Ref(LV(server_cell, 0)), avoid_snapshots])
 
-    def sync(self, db, server, avoid_snapshots=False):
+    def sync(self, db, server, avoid_snapshots=False, client=None):
+        self.I.env['current_client'] = client
         cell = [BoxV(server)]
         fut = self.sync_future(db, cell, avoid_snapshots)
         return self.I.block_on(fut)
@@ -286,3 +289,76 @@ def show(v, model=None):
     if isinstance(v, (int, str, bool)) or v is None:
         return v
     return repr(v)
+
+
+# ----------------------------------------------------------------------------- request-level scheduler
+
+class Scheduler:
+    """Interleaves several top-level futures at the granularity of single server/service requests.
+    A leaf request future (PendingOnce) completes only when its task holds the grant; the harness picks
+    the next task with ctx.choose, so every interleaving inside the bound is explored."""
+
+    def __init__(self, I, ctx, clients=None):
+        self.I, self.ctx = I, ctx
+        self.clients = clients   # task index -> client id (for the server model's bookkeeping)
+        self.current = None      # task being polled
+        self.grant = False       # may the current task complete one leaf?
+        self.trace = []
+
+    READS = ('get_child_version', 'get_snapshot', 'get', 'list')
+
+    def poll_leaf(self, I, leaf):
+        if leaf.served:
+            return Adt('Poll', 0, [leaf.value])
+        if self.grant:
+            self.grant = False
+            I.env['current_client'] = self.clients[self.current] if self.clients else self.current
+            leaf.value, leaf.served = leaf.thunk(I), True
+            self.trace.append((self.current, leaf.label))
+            return Adt('Poll', 0, [leaf.value])
+        self.pending_label[self.current] = leaf.label
+        return Adt('Poll', 1, [])
+
+    def independent(self, a, b):
+        """requests of two different tasks commute when neither changes the server/service state"""
+        return self.pending_label.get(a) in self.READS and self.pending_label.get(b) in self.READS
+
+    def run(self, futures, label='sched', max_steps=200):
+        """futures: list of future values; returns list of results (in task order).
+        Sleep sets prune interleavings that differ only in the order of commuting (read-only) requests."""
+        I = self.I
+        I.env['scheduler'] = self
+        results = [None] * len(futures)
+        done = [False] * len(futures)
+        self.pending_label = {}
+        sleep = set()
+        try:
+            # run every task up to its first request
+            for i, f in enumerate(futures):
+                self.current, self.grant = i, False
+                r = I.poll_future(f)
+                if r.variant == 0:
+                    results[i], done[i] = r.fields[0], True
+            steps = 0
+            while not all(done):
+                live = [i for i in range(len(futures)) if not done[i]]
+                allowed = [i for i in live if i not in sleep]
+                if not allowed:
+                    raise PathAbort()      # every continuation is covered by an already explored order
+                ki = self.ctx.choose(len(allowed), label)
+                k = allowed[ki]
+                sleep = {s2 for s2 in sleep if self.independent(s2, k)} | \
+                        {allowed[i] for i in range(ki) if self.independent(allowed[i], k)}
+                self.current, self.grant = k, True
+                r = I.poll_future(futures[k])
+                if self.grant:
+                    raise Unsupported('scheduled task made no request when granted')
+                if r.variant == 0:
+                    results[k], done[k] = r.fields[0], True
+                    self.pending_label.pop(k, None)
+                steps += 1
+                if steps > max_steps:
+                    raise Unsupported('scheduler step bound exceeded')
+        finally:
+            I.env.pop('scheduler', None)
+        return results
